@@ -109,7 +109,7 @@ def mixture(rs, s):
     """3..10 right-hand-side columns of very different convergence speed in one call, default x0: columns already solved
     (zero), columns solved in one step (b = A v, v an eigenvector of P A), and slow (random) ones; norms spread as usual"""
     n, cplx, A = s["n"], s["cplx"], s["A"]
-    nc = int(rs.integers(3, 11))
+    nc = int(rs.integers(3, 11)) if rs.random() < 0.85 else int(rs.choice([16, 17, 32, 33, 64, 65]))    # also past round column counts
     w, Vv = np.linalg.eig(s["Pd"] @ A)
     kinds = [str(rs.choice(["zero", "fast", "fast", "slow"])) for _ in range(nc)]
     kinds[int(rs.integers(0, nc))] = "slow"
@@ -189,7 +189,29 @@ def run(ctx):
             mixture(rs, s)
             tol = float(10 ** rs.uniform(-10, -2))
         K = int(rs.choice([2 * s["n"], s["n"], int(rs.integers(0, 2 * s["n"] + 1))]))
+        if rs.random() < 0.35:      # caps far beyond the steps actually taken, past the usual round numbers (the default is 1000 / 5000)
+            K = int(rs.choice([99, 100, 101, 128, 199, 200, 201, 256, 257, 500, 999, 1000, 1001, 1024, 2500, 5000]))
         cases.append(dict(s, tol=tol, max_iters=K, stream="stopping"))
+    # stream 5: LONG runs (more than 50, 64, 100, 128 steps): large systems with an evenly spread spectrum, on which the recurrence
+    # stays numerically stable for that long, so that both the in-Coq model and the Krylov-optimum oracle apply to the k-step iterate
+    for li in range(ctx.budget(4, 14)):
+        big = ctx.tier == "thorough" and li % 3 == 2
+        n = int(rs.integers(230, 271)) if big else int(rs.integers(100, 146))
+        cplx = bool(li % 3 == 1)
+        kappa = float(rs.choice([3e3, 1e4])) if big else float(10 ** rs.uniform(2.5, 3.5))
+        A = L.make_spd(rs, n, cplx, kappa, "uniform")
+        pk = str(rs.choice(["none", "jacobi", "jacobi", "spd"]))
+        Pop, Pd = L.make_precond(rs, pk, A, cplx)
+        nc = int(rs.choice([1, 1, 2]))
+        B = (rs.normal(size=(n, nc)) + (1j * rs.normal(size=(n, nc)) if cplx else 0)) * 10.0 ** rs.uniform(-3, 3, size=(1, nc))
+        x0kind = "random" if (not flag and rs.random() < 0.6) else "none"
+        X0 = (rs.normal(size=(n, nc)) + (1j * rs.normal(size=(n, nc)) if cplx else 0)).astype(B.dtype) if x0kind == "random" else None
+        base = dict(A=A, Pop=Pop, Pd=Pd, B=B, X0=X0, cplx=cplx, sys_id=sid, kappa=kappa, kind="uniform", pk=pk, x0kind=x0kind,
+                    spread="long run", n=n, nc=nc, vector_api=False)
+        sid += 1
+        ks = [51, 65, int(rs.integers(52, 64)), int(rs.integers(66, 100))] + ([101, 129, int(rs.integers(102, 128))] if big else [])
+        for k in sorted(set(ks)):
+            cases.append(dict(base, tol=1e-13, max_iters=k, stream="long_iterates"))
     # stream 4: the region of the recorded defect (x0 != 0, ||b|| != 1): model at the probed flag value vs implementation
     for _ in range(n_region):
         s = gen_system(rs, ctx, sid, min(nmax, 10), 2, flag, region=True)
@@ -208,17 +230,27 @@ def run(ctx):
     margin_ties = sum(1 for o, st in zip(obs, stab) if o.get("ok") and st["same_steps"] and st["dev_x"] <= 1e-12 and st["dev_r"] <= 1e-10 and st["min_margin"] < 1e-5)
     items = [(cases[i], obs[i]) for i in stable]
     mism = []
-    failing, near, err = L.eval_in_coq("c12", items, flag, div_small=div_small)
-    if err:
-        mism.append(dict(oracle_fail=False, harness_error=err))
-        failing, near = [], []
+    short = [j for j, i in enumerate(stable) if cases[i]["stream"] != "long_iterates"]
+    longs = [j for j, i in enumerate(stable) if cases[i]["stream"] == "long_iterates"]
+    failing, near = [], []
+    for name, sel, shard in (("c12", short, 120), ("c12L", longs, 4)):      # long runs carry 100..270-dimensional matrices: few cases per file
+        f_, n_, err = L.eval_in_coq(name, [items[j] for j in sel], flag, shard=shard, div_small=div_small)
+        if err:
+            mism.append(dict(oracle_fail=False, harness_error=err))
+        else:
+            failing += [sel[j] for j in f_]
+            near += [sel[j] for j in n_]
     failset = {stable[i] for i in failing}
     nearset = {stable[i] for i in near}
     # ---- independent oracle on every case
     opt_checked, opt_worst = 0, 0.0
+    opt_rel_checked, opt_rel_worst = 0, 0.0
     for i, (c, o, st) in enumerate(zip(cases, obs, stab)):
         c["check_opt"] = bool(st["same_steps"] and st["sens_A"] <= 1e-9)
+        c["sens_rel"] = st.get("sens_rel", np.inf) if st["same_steps"] else np.inf
         bad, info = L.oracle(c, o, flag, OPT_TOL)
+        opt_rel_checked += int("opt_dist_rel" in info)
+        opt_rel_worst = max(opt_rel_worst, info.get("opt_dist_rel", 0.0))
         if "opt_dist" in info:
             opt_checked += 1
             opt_worst = max(opt_worst, info["opt_dist"])
@@ -228,7 +260,7 @@ def run(ctx):
     # ---- stream 3: large / ill-conditioned systems, oracle only (contract clauses; optimality where stable)
     large, large_opt = 0, 0
     for _ in range(n_large):
-        n = int(rs.integers(30, ctx.budget(120, 200) + 1))
+        n = int(rs.integers(30, ctx.budget(140, 300) + 1))       # sizes past 64, 100, 128 (and 256 in the thorough tier)
         s = gen_system(rs, ctx, sid, 1, 6, flag)
         sid += 1
         cplx = s["cplx"]
@@ -341,8 +373,10 @@ def run(ctx):
              "the contract oracle, n 1..%d in Coq, 30..%d oracle-only), 1-3 columns with norms spread over 12 orders (absolute 1e-14..1e8) and zero columns, x0 none/zero/random/warm start, "
              "5 preconditioner kinds, tol 1e-12..1e-1, max_iters 0..2n; non-trivial = n>=2 and at least one step; distinct by (system, tol, max_iters)" % (nmax, ctx.budget(120, 200)),
         samples=samples, mismatches=mism, findings=fnd,
-        extra=dict(compared_in_coq=len(items), near_tie=len(nearset) + margin_ties, skipped_unstable=len(cases) - large - len(items) - margin_ties,
-                   krylov_optimum_checked=opt_checked + large_opt, krylov_optimum_worst_distance=opt_worst,
+        extra=dict(compared_in_coq=len(items), long_runs_compared_in_coq=len(longs), long_runs=sum(1 for c in cases if c["stream"] == "long_iterates"),
+                   max_steps_taken=max([o["steps"] for o in obs if o.get("ok")] + [0]), max_iters_histogram=hist(None, lambda c: ("<=50" if c["max_iters"] <= 50 else "51..128" if c["max_iters"] <= 128 else "129..1000" if c["max_iters"] <= 1000 else ">1000")), near_tie=len(nearset) + margin_ties, skipped_unstable=len(cases) - large - len(items) - margin_ties,
+                   krylov_optimum_checked=opt_checked + large_opt, krylov_optimum_relative_to_remaining_error_checked=opt_rel_checked,
+                   krylov_optimum_relative_worst=opt_rel_worst, krylov_optimum_worst_distance=opt_worst,
                    large_oracle_only=large, homogeneity_pairs=homog, inv_entry_point=invpath, inv_with_1d_guess=x0vec, float32_complex64_cases=lowprec,
                    impl_exceptions=len(obs) - len(ok_obs),
                    stopped_by_tolerance=sum(1 for c, o in zip(cases, obs) if o.get("ok") and o["steps"] < c["max_iters"]),
